@@ -70,6 +70,22 @@ def gen_cases(tier, seed):
             cases.append({"kind": "transform", "cfg": cfg, "policy": "randn0.3", "mode": "train", "seed": env.subseed(seed, "c16do", k),
                           "world": "f64", "tier_": tier, "cost": 3})
             k += 1
+    # user-written conditioners that expose `hidden_features` and end in an op whose backward needs its own output (tanh):
+    # whatever the layer does with the conditioner's output, back-propagation must still succeed and be right
+    k = 0
+    for fam in ("coupling_affine", "coupling_linear", "coupling_quadratic", "coupling_cubic", "coupling_rq"):
+        for image in (False, True):
+            cfg = None
+            for _ in range(80):
+                cfg = zoo.FAM[fam].sample_cfg(rng, tier)
+                if (len(cfg["shape"]) == 3) == image and not cfg.get("uncond"):
+                    break
+            cfg = _smooth(dict(cfg, net="bounded"))
+            cfg.pop("net_bn", None)
+            cfg.pop("dropout", None)
+            cases.append({"kind": "transform", "cfg": cfg, "policy": "randn0.3", "mode": "eval", "seed": env.subseed(seed, "c16bounded", k),
+                          "world": "f64", "tier_": tier, "cost": 3})
+            k += 1
     # the affine coupling's GENERAL scale activation is capped at 3: where the cap is active the scale does not depend on the
     # conditioner any more (its gradient there is zero) - conditioner outputs pushed to about 5
     for i in range(3 if tier == "quick" else 20):
